@@ -212,14 +212,352 @@ def c14(tier, seed):
              % (3 if tier == "quick" else 4, nops, maxb))
 
 
+# =========================================================================== decoder histories
+from . import picgen as pg
+
+
+class Hist:
+    """builds commands for decoder histories; every history is one validation unit (group key "h")"""
+
+    def __init__(self):
+        self.cmds = []
+        self.n = 0
+
+    def new(self, sor=True, scal=False):
+        self.n += 1
+        self.cmds.append({"op": "new", "d": 0, "sor": sor, "scal": scal, "h": self.n})
+        return self.n
+
+    def decode(self, pic=None, **kw):
+        c = {"op": "decode", "d": 0, "h": self.n}
+        if pic is not None:
+            c["pic"] = pic
+        c.update(kw)
+        self.cmds.append(c)
+
+    def op(self, name, **kw):
+        c = {"op": name, "d": 0, "h": self.n}
+        c.update(kw)
+        self.cmds.append(c)
+
+
+def hkey(c):
+    return c["h"]
+
+
+def sor_hdr(rng, pt, tr, w, h, ver, q=None, **kw):
+    return pg.header("sor", pt, tr=tr, q=q if q is not None else rng.randrange(1, 32), w=w, h=h, ver=ver, **kw)
+
+
+def short_events():
+    return [(last, run, lev) for (last, run), n in sorted(pg.SHORT_MAX.items()) for lev in range(1, n + 1)]
+
+
+def one_mb_intra(rng, ver, q, cbpy, cbpc, t=3, blocks=None, dq=None, w=16, h=16, tr=0, hk="sor", **hkw):
+    """a 1-macroblock intra picture with explicit blocks (list of 6 {dc, ev}) or random ones"""
+    hdr = pg.header(hk, "I", tr=tr, q=q, w=w, h=h, ver=ver, **hkw)
+    ver1 = hk == "sor" and ver == 1
+    mb = pg.coded_mb(rng, t, ver1, cbpc=cbpc, cbpy=cbpy, dq=dq, big=False)
+    if blocks is not None:
+        mb["b"] = blocks
+    p = dict(hdr)
+    p["mbs"] = [mb]
+    return p
+
+
+# =========================================================================== C02
+@plan("C02")
+def c02(tier, seed):
+    run = Run("C02", tier, seed)
+    rng = random.Random(seed)
+    run.model_check("MCTables", workers=4)
+    H = Hist()
+
+    def single(pic, sor=True):
+        H.new(sor=sor)
+        H.decode(pic)
+
+    # (a) every coded-block pattern, both Sorenson versions
+    for ver in (0, 1):
+        for cbpy in range(16):
+            for cbpc in range(4):
+                single(one_mb_intra(rng, ver, rng.randrange(1, 32), cbpy, cbpc, t=rng.choice([3, 4])))
+    # (b) every INTRADC code (six per picture)
+    codes = [c for c in range(1, 256) if c != 128]
+    for i in range(0, len(codes), 6):
+        grp = (codes[i:i + 6] + codes[:6])[:6]
+        blocks = [{"dc": c, "ev": []} for c in grp]
+        single(one_mb_intra(rng, i % 2, rng.randrange(1, 32), 0, 0, blocks=blocks))
+    # (c) every Table 16 event as first / middle / last event of a block
+    evs = short_events()
+    blks = []
+    for (last, run_, lev) in evs:
+        for sgn in (1, -1):
+            e = [last, run_, sgn * lev, 0]
+            if last == 1:
+                if run_ + 1 <= 63:
+                    blks.append([e])
+                if run_ + 2 <= 62:
+                    blks.append([[0, 0, 2, 0], e])
+            else:
+                if run_ + 2 <= 62:
+                    blks.append([e, [1, 0, 1, 0]])
+                    blks.append([[0, 1, -1, 0], e, [1, 2, 1, 0]] if run_ + 6 <= 62 else [e, [1, 0, -1, 0]])
+    for i in range(0, len(blks), 6):
+        grp = (blks[i:i + 6] + blks[:6])[:6]
+        blocks = [{"dc": pg.rand_dc(rng), "ev": e} for e in grp]
+        single(one_mb_intra(rng, (i // 6) % 2, rng.choice([1, 2, 5, 8, 13, 31]), 15, 3, blocks=blocks))
+    # (d) escapes at boundary levels, all three forms, boundary quantizers
+    for ver in (0, 1):
+        levels = [1, 2, 63, 64, 100, 127] if ver == 0 else [1, 2, 62, 63, 64, 127, 128, 300, 528, 529, 1000, 1023]
+        for q in ([1, 2, 3, 30, 31] if tier == "quick" else list(range(1, 32))):
+            for i in range(0, len(levels), 3):
+                blocks = []
+                for lev in (levels[i:i + 3] + levels[:3])[:3]:
+                    for sgn in (1, -1):
+                        form = 1 if (ver == 0 or lev <= 63) else 2
+                        blocks.append({"dc": pg.rand_dc(rng), "ev": [[1, rng.randrange(0, 20), sgn * lev, form]]})
+                single(one_mb_intra(rng, ver, q, 15, 3, blocks=blocks))
+    # (e) DQUANT sequences over two macroblocks
+    for q in [1, 2, 3, 15, 30, 31]:
+        for dq in [-2, -1, 1, 2]:
+            for ver in (0, 1):
+                hdr = pg.header("sor", "I", tr=0, q=q, w=32, h=16, ver=ver)
+                p = dict(hdr)
+                p["mbs"] = [pg.coded_mb(rng, 4, ver == 1, dq=dq, big=False), pg.coded_mb(rng, rng.choice([3, 4]), ver == 1, big=False)]
+                single(p)
+    # (f) every sparsity shape, (g) stuffing and extra-information bytes
+    for shape in ["one", "row", "col", "dense", "sparse"]:
+        for ver in (0, 1):
+            for k in range(3):
+                hdr = pg.header("sor", "I", tr=k, q=rng.randrange(1, 32), w=32, h=32, ver=ver, pei=rbytes(rng, k))
+                single(pg.intra_picture(rng, hdr, shape=shape, stuffing=0.3 if k else 0.0, big=False))
+    # (h) every size 1..17 x 1..17 and a few larger ones
+    sizes = [(w, h) for w in range(1, 18) for h in range(1, 18)] + [(17, 3), (33, 16), (16, 33), (48, 48), (255, 1), (1, 255)]
+    for i, (w, h) in enumerate(sizes):
+        single(pg.intra_picture(rng, sor_hdr(rng, "I", i % 256, w, h, i % 2), big=False))
+    # 16-bit custom size code and the fixed size codes of the Sorenson header
+    single(pg.intra_picture(rng, sor_hdr(rng, "I", 1, 40, 24, 1, sc=1), big=False))
+    for sc in ([4, 6] if tier == "quick" else [2, 3, 4, 5, 6]):
+        single(pg.intra_picture(rng, sor_hdr(rng, "I", 2, 0, 0, rng.randrange(2), sc=sc), big=False, shape="sparse"))
+    # (i) standard H.263: custom-format PLUSPTYPE headers and baseline headers
+    for (w, h) in [(16, 16), (20, 12), (36, 20), (4, 4), (64, 48)]:
+        single(pg.intra_picture(rng, pg.header("plus", "I", tr=rng.randrange(256), q=rng.randrange(1, 32), w=w, h=h), big=False), sor=False)
+    single(pg.intra_picture(rng, pg.header("base", "I", tr=3, q=rng.randrange(1, 32), fmt=1), big=False, shape="sparse"), sor=False)
+    if tier == "thorough":
+        single(pg.intra_picture(rng, pg.header("base", "I", tr=4, q=rng.randrange(1, 32), fmt=2), big=False, shape="sparse"), sor=False)
+    # (j) random pictures with dense events and the full level range
+    nrand, maxdim = (120, 64) if tier == "quick" else (1500, 96)
+    for i in range(nrand):
+        w, h = rng.randrange(1, maxdim + 1), rng.randrange(1, maxdim + 1)
+        single(pg.intra_picture(rng, sor_hdr(rng, "I", i % 256, w, h, i % 2), stuffing=0.05))
+    if tier == "thorough":
+        for (w, h, sc) in [(176, 144, 3), (352, 288, 2)]:
+            single(pg.intra_picture(rng, sor_hdr(rng, "I", 9, w, h, 1, sc=sc)))
+    npics = sum(1 for c in H.cmds if "pic" in c)
+    enc = run.encode(H.cmds)
+    run.drive_and_validate(enc, "TraceDecoder", group=hkey, sample=2)
+    run.evaluations = npics
+    run.nontrivial = npics
+    run.notes["intra_pictures"] = npics
+    return run.finish(
+        rule="intra pictures as abstract values (Picture.tla): all 64 coded-block patterns x 2 Sorenson versions, all 254 "
+             "INTRADC codes, all 102 Table-16 events x sign as first/middle/last event, escapes in the 7/8/11-bit forms at "
+             "boundary levels x boundary quantizers, DQUANT sequences, five sparsity shapes, stuffing, 0..2 extra-information "
+             "bytes, every size 1..17 x 1..17 plus larger and fixed-size codes, standard-mode PLUSPTYPE and baseline headers, "
+             "and seeded random pictures; TLC encodes each to bytes, the real decoder decodes them, TLC recomputes every "
+             "sample (zig-zag, dequantisation, wide-integer ideal IDCT with +-1 only inside the eps(F) boundary band) and "
+             "compares planes, sizes, header and reader position; distinct = pictures")
+
+
+# =========================================================================== C03
+VEC = [-32, -31, -16, -1, 0, 1, 15, 31]
+
+
+@plan("C03")
+def c03(tier, seed):
+    run = Run("C03", tier, seed)
+    rng = random.Random(seed)
+    run.model_check("MCTables", workers=4)
+    H = Hist()
+
+    def start(w, h, ver, sor=True, hk="sor"):
+        H.new(sor=sor)
+        if hk == "sor":
+            H.decode(pg.intra_picture(rng, sor_hdr(rng, "I", 0, w, h, ver), big=False, shape="dense"))
+        else:
+            H.decode(pg.intra_picture(rng, pg.header(hk, "I", tr=0, q=rng.randrange(1, 32), w=w, h=h), big=False, shape="dense"))
+
+    # (a) a predicted picture without any reference must be rejected
+    for ver in (0, 1):
+        H.new()
+        H.decode(pg.inter_picture(rng, sor_hdr(rng, "P", 1, 16, 16, ver), big=False))
+        H.decode(pg.inter_picture(rng, sor_hdr(rng, "D", 2, 16, 16, ver), pt="D", mix=[1, 0, 0, 0, 0, 0, 0]))
+    # (b) every macroblock-type mix on up to three macroblocks, vectors crossing every edge, all half-sample phases
+    kinds = ["skip", 0, 1, 2, 3, 4, 5]
+    mixes = [(a,) for a in kinds] + [(a, b) for a in kinds for b in kinds]
+    if tier == "thorough":
+        mixes += [(a, b, c) for a in kinds for b in kinds for c in kinds]
+    else:
+        mixes += [tuple(rng.choice(kinds) for _ in range(3)) for _ in range(40)]
+    for i, mix in enumerate(mixes):
+        ver = i % 2
+        n = len(mix)
+        w, h = rng.choice([(16 * n, 16), (16 * n - 3, 13)] + ([(16, 16 * n), (9, 16 * n - 5)] if n > 1 else []))
+        if pg.mbw(w) * ((h + 15) // 16) != n:
+            w, h = 16 * n, 16
+        start(w, h, ver)
+        for rep in range(2):
+            p = dict(sor_hdr(rng, "P", rep + 1, w, h, ver))
+            mbs = []
+            for k in mix:
+                if k == "skip":
+                    mbs.append({"k": "skip"})
+                else:
+                    nmv = 0 if k in (3, 4) else (4 if k in (2, 5) else 1)
+                    mvd = [[rng.choice(VEC), rng.choice(VEC)] for _ in range(nmv)]
+                    mbs.append(pg.coded_mb(rng, k, ver == 1, mvd=mvd, big=False))
+            p["mbs"] = mbs
+            H.decode(p)
+    # (c) truncation after every macroblock of a 3x2 picture; sizes that are not multiples of 16
+    for ver in (0, 1):
+        for cut in range(0, 7):
+            start(40, 24, ver)
+            H.decode(pg.inter_picture(rng, sor_hdr(rng, "P", 1, 40, 24, ver), truncate_after=cut, big=False))
+            H.decode(pg.inter_picture(rng, sor_hdr(rng, "P", 2, 40, 24, ver), big=False))
+    # (d) chains of predicted pictures on larger grids: all differentials uniformly, dense residuals
+    nrand, maxmb = (60, (4, 3)) if tier == "quick" else (700, (6, 5))
+    for i in range(nrand):
+        w = rng.randrange(1, 16 * maxmb[0] + 1)
+        h = rng.randrange(1, 16 * maxmb[1] + 1)
+        ver = i % 2
+        start(w, h, ver)
+        for k in range(rng.randrange(1, 5)):
+            H.decode(pg.inter_picture(rng, sor_hdr(rng, "P", k + 1, w, h, ver), stuffing=0.05,
+                                      truncate_after=(rng.randrange(0, pg.mbw(w) * ((h + 15) // 16) + 1) if rng.random() < 0.15 else None)))
+    # (e) standard mode (custom-format PLUSPTYPE headers)
+    for (w, h) in [(16, 16), (36, 20), (64, 48)]:
+        start(w, h, 0, sor=False, hk="plus")
+        for k in range(2):
+            H.decode(pg.inter_picture(rng, pg.header("plus", "P", tr=k + 1, q=rng.randrange(1, 32), w=w, h=h), big=False))
+    npics = sum(1 for c in H.cmds if "pic" in c)
+    enc = run.encode(H.cmds)
+    run.drive_and_validate(enc, "TraceDecoder", group=hkey, sample=2)
+    run.evaluations = npics
+    run.nontrivial = npics
+    run.notes["pictures"] = npics
+    return run.finish(
+        rule="histories I, P, P...: every macroblock-type mix over {not-coded, INTER, INTER+Q, INTER4V, INTRA, INTRA+Q, "
+             "INTER4V+Q} on 1 and 2 macroblocks (3 in thorough / sampled in quick) with differentials from {-16, -15.5, -8, "
+             "-0.5, 0, 0.5, 7.5, 15.5}^2, sizes not multiples of 16, truncation after every macroblock, predicted pictures "
+             "without reference (must be rejected), random chains on larger grids with uniformly drawn differentials, and "
+             "standard-mode pictures; references are what the real decoder produced (adopted); TLC recomputes vectors "
+             "(median prediction, wrap), chroma vectors, bilinear prediction with edge clamp, residuals, and compares planes")
+
+
+# =========================================================================== C04
+GARBAGE = [[0xFF, 0xEE, 0xDD, 0xCC, 0xBB, 0xAA, 0x99, 0x88], [0x00, 0x00, 0x84], [0x00, 0x00, 0x80, 0x02, 0x1C], [0x12]]
+
+
+def instantiate_history(H, rng, ops, w=16, h=16, ver=None, newreader=True, sor=True):
+    """turn a model history [["I",tr],["P",tr],["D",tr],["R"],["C"]] into decoder commands"""
+    ver = rng.randrange(2) if ver is None else ver
+    H.new(sor=sor)
+    for op in ops:
+        k = op[0]
+        if k == "C":
+            H.op("cleanup")
+            continue
+        if newreader:
+            H.op("newreader")
+        if k == "R":
+            H.decode(None, bytes=rng.choice(GARBAGE))
+        elif k == "I":
+            H.decode(pg.intra_picture(rng, sor_hdr(rng, "I", op[1], w, h, ver), big=False, shape=rng.choice(["one", "sparse"])))
+        else:
+            p = pg.inter_picture(rng, sor_hdr(rng, k, op[1], w, h, ver), pt=k, big=False, shape="sparse",
+                                 mix=[3, 5, 1, 2, 1, 0, 0])
+            if all(m["k"] == "mb" and m["t"] in (3, 4) for m in p["mbs"] if m["k"] != "stuff"):
+                p["mbs"][-1] = {"k": "skip"}          # the model's P/D pictures need their reference
+            H.decode(p)
+
+
+@plan("C04")
+def c04(tier, seed):
+    run = Run("C04", tier, seed)
+    rng = random.Random(seed)
+    # (a) the model: reference = last non-disposable picture, for all histories and TR assignments
+    #     (design "current": disposable pictures held outside the TR-keyed store; collisions allowed)
+    run.model_check("MCDecoder", "MCDecoder" if tier == "quick" else "MCDecoderDeep", workers=8, xmx="4g")
+    # (b) every behaviour of the model up to a length, replayed with real pictures
+    gens = []
+    r = run_gen_bfs(run, "MCDecoder", "MCDecoderGen3" if tier == "quick" else "MCDecoderGen4")
+    gens += r
+    sim = run.generate_sim("MCDecoder", "MCDecoderSim", num=(20 if tier == "quick" else 300), depth=12,
+                           seeds=[seed * 100 + k for k in range(8)])
+    rng.shuffle(sim)
+    gens += sim[:(300 if tier == "quick" else 6000)]
+    H = Hist()
+    for g in gens:
+        instantiate_history(H, rng, g["ops"])
+    # (c) long random histories with arbitrary 8-bit temporal references, repeats and wrap-around
+    for i in range(40 if tier == "quick" else 600):
+        n = rng.randrange(5, 41)
+        tr = rng.randrange(256)
+        ops = []
+        for k in range(n):
+            r_ = rng.random()
+            if r_ < 0.12:
+                ops.append(["R"])
+            elif r_ < 0.2:
+                ops.append(["C"])
+            else:
+                kind = rng.choices(["I", "P", "D"], weights=[2, 5, 3])[0]
+                tr = rng.choice([tr, (tr + 1) % 256, (tr + 1) % 256, (tr + 1) % 256, rng.randrange(256), 255, 0])
+                ops.append([kind, tr])
+        instantiate_history(H, rng, ops, w=rng.choice([16, 17, 32]), h=rng.choice([16, 9]))
+    npics = sum(1 for c in H.cmds if c["op"] == "decode")
+    enc = run.encode(H.cmds)
+    run.drive_and_validate(enc, "TraceDecoder", group=hkey, sample=2)
+    run.evaluations = npics
+    run.nontrivial = H.n
+    run.notes["histories"] = H.n
+    run.notes["decode_calls"] = npics
+    return run.finish(
+        rule="model: all histories over {I,P,D,Reject,Cleanup} of length <= 6 with TRs from {0,1,255} (two-layer Decoder.tla, "
+             "invariant RefIsLastNonDisposable); implementation: every model history of length %d exported by TLC, simulated "
+             "longer ones, and random histories of up to 40 calls with arbitrary 8-bit TRs, each instantiated with distinct "
+             "16x16 pictures (I: fresh content; P/D: not-coded + moved + residual macroblocks), one reader per call; after every "
+             "call the last picture's planes and header, the hook state (last, ref, store keys) and the predicted picture's "
+             "planes are validated against the requirement-level model; distinct = histories" % (3 if tier == "quick" else 4))
+
+
+def run_gen_bfs(run, module, cfg, timeout=1800):
+    """exhaustive export: every maximal history of the generation config (hist is part of the state)"""
+    r = core.run_tlc(module, cfg, workdir=run.work, timeout=timeout, xmx="4g")
+    if r.error:
+        run.tool_errors.append("generation %s/%s: %s\n%s" % (module, cfg, r.error, r.raw_tail))
+    run.states += r.distinct
+    run.transitions += r.generated
+    gens = [json.loads(x[4:]) for x in r.prints if x.startswith("GEN ")]
+    run.mc_runs.append({"module": module, "cfg": cfg, "mode": "exhaustive export", "behaviours": len(gens),
+                        "distinct": r.distinct, "wall_s": round(r.wall, 1)})
+    return gens
+
+
 # =========================================================================== replay
 def replay(pid, path, seed):
     rec = json.load(open(path))
     run = Run(pid, "quick", seed)
     cmds = rec["commands"]
     module = REPLAY_MODULE[pid]
+    if any("pic" in c for c in cmds):
+        for c in cmds:
+            c.pop("bytes", None)
+        cmds = run.encode(cmds, nshards=1)
     run.drive_and_validate(cmds, module, nshards=1, group=(lambda c: 0))
     return run.finish(rule="replay of %s" % path)
 
 
-REPLAY_MODULE = {"C07": "TraceYuv", "C08": "TraceYuv", "C09": "TraceDeblock", "C16": "TraceDeblock", "C14": "TraceBitReader"}
+REPLAY_MODULE = {"C07": "TraceYuv", "C08": "TraceYuv", "C09": "TraceDeblock", "C16": "TraceDeblock", "C14": "TraceBitReader", "C02": "TraceDecoder", "C03": "TraceDecoder", "C04": "TraceDecoder", "C05": "TraceDecoder", "C15": "TraceDecoder",
+                 "C01": "TraceDecoder", "C17": "TraceDecoder", "C11": "TraceDecoder"}
